@@ -1,4 +1,4 @@
-HOOK_COMMITS = ["e643c2f", "ac5abb7", "f73553e", "1ca5c04", "578d2b5", "4b8c6d3", "8345a96", "29bd9cf", "8d78881", "fd8fa68", "ad320e4", "6ffad87", "fa99d9d", "4219f8b", "2fdb29c", "7141782"]
+HOOK_COMMITS = ["e643c2f", "ac5abb7", "f73553e", "1ca5c04", "578d2b5", "4b8c6d3", "8345a96", "29bd9cf", "8d78881", "fd8fa68", "ad320e4", "6ffad87", "fa99d9d", "4219f8b", "2fdb29c", "7141782", "f4267f3"]
 
 NOTES = ("Technique: machine-checked proof in Lean 4 of properties of hand-written models, tied to /repo on every run by a "
          "correspondence check (and regenerated source facts). See DESIGN.md. A property moves from not_applicable to checks "
